@@ -177,6 +177,17 @@ func (s *Sim) MakeOutputs(total uint64, mode string) OutSpec {
 		}
 		spec.Outs = mk(act.Id, amts)
 		spec.Reason = "outputs-overflow"
+	case "near-overflow":
+		// every amount is a key of the keyset and the sum is 2^64-1: adding any fee wraps
+		var amts []uint64
+		for i := 0; i < 59; i++ {
+			amts = append(amts, 1<<uint(i))
+		}
+		for i := 0; i < 31; i++ {
+			amts = append(amts, 1<<59)
+		}
+		spec.Outs = mk(act.Id, amts)
+		spec.Reason = "outputs-exceed"
 	case "nonpow2":
 		spec.Outs = mk(act.Id, []uint64{3})
 		spec.Reason = "output-amount-not-a-key"
@@ -585,6 +596,49 @@ func (s *Sim) NewInternalMeltQuote(mq *MintQ) *MeltQ {
 	s.MeltQs = append(s.MeltQs, lq)
 	s.logf("internal meltquote for %s = %s amount=%d reserve=%d", mq.Id[:8], q.Id[:8], q.Amount, q.FeeReserve)
 	s.done("meltquote-internal")
+	return lq
+}
+
+// NewForgedInternalMeltQuote: a melt quote for an invoice the adversary built
+// himself with the payment hash of one of the mint's own (unpaid) invoices but a
+// different amount.
+func (s *Sim) NewForgedInternalMeltQuote(mq *MintQ, msat uint64) *MeltQ {
+	inv := s.W.NewForgedInvoice(mq.Hash, msat)
+	q, err := s.E.RequestMeltQuote(inv.Bolt11, 0)
+	if err != nil {
+		s.logf("forged-hash meltquote (%d msat, hash of mint quote %s for %d sat) refused: %v", msat, mq.Id[:8], mq.Amount, err)
+		s.done("meltquote-refused")
+		return nil
+	}
+	lq := &MeltQ{Id: q.Id, Hash: mq.Hash, Amount: q.Amount, Reserve: q.FeeReserve, InvMsat: msat, State: "UNPAID", Internal: mq}
+	if q.FeeReserve > 0 {
+		lq.Internal = nil // treated as an ordinary Lightning payment by the mint
+	} else if q.Amount < mq.Amount {
+		// no fee reserve: the mint intends to settle against its own mint quote, for less than that quote is worth
+		s.mismatch("meltquote", "accepted", "internal-settlement-for-less-than-mint-quote", fmt.Sprintf("melt quote of %d sat (reserve 0) shares the payment hash of mint quote %s for %d sat", q.Amount, mq.Id[:8], mq.Amount))
+	}
+	s.MeltQs = append(s.MeltQs, lq)
+	s.logf("forged-hash meltquote (%d msat, hash of mint quote %s for %d sat) = %s amount=%d reserve=%d", msat, mq.Id[:8], mq.Amount, q.Id[:8], q.Amount, q.FeeReserve)
+	s.done("meltquote-forged-hash")
+	return lq
+}
+
+// NewInternalMppMeltQuote: MPP option on the mint's own invoice (must be refused).
+func (s *Sim) NewInternalMppMeltQuote(mq *MintQ, partMsat uint64) *MeltQ {
+	inv := s.W.Invoice(mq.Hash)
+	q, err := s.E.RequestMeltQuote(inv.Bolt11, partMsat)
+	if err != nil {
+		s.logf("mpp meltquote on own invoice of %s refused: %v", mq.Id[:8], err)
+		s.done("meltquote-refused")
+		return nil
+	}
+	lq := &MeltQ{Id: q.Id, Hash: mq.Hash, Amount: q.Amount, Reserve: q.FeeReserve, InvMsat: inv.AmountMsat, State: "UNPAID", Internal: mq, Mpp: true, PartMsat: partMsat}
+	if q.FeeReserve == 0 && q.Amount < mq.Amount {
+		s.mismatch("meltquote", "accepted", "internal-settlement-for-less-than-mint-quote", fmt.Sprintf("MPP melt quote of %d sat (reserve 0) on the mint's own invoice for %d sat", q.Amount, mq.Amount))
+	}
+	s.MeltQs = append(s.MeltQs, lq)
+	s.logf("mpp meltquote on own invoice of %s (%d of %d msat) = %s amount=%d reserve=%d", mq.Id[:8], partMsat, inv.AmountMsat, q.Id[:8], q.Amount, q.FeeReserve)
+	s.done("meltquote-internal-mpp")
 	return lq
 }
 
